@@ -8,11 +8,11 @@ git -C /repo worktree add --detach "$WT" HEAD >/dev/null 2>&1 || { echo "worktre
 cleanup() { git -C /repo worktree remove --force "$WT" >/dev/null 2>&1; rm -rf "$WT"; }
 trap cleanup EXIT
 cd "$WT"
-LD_LIBRARY_PATH=$ICU /venv/bin/python "$SRC/demo.py" > /tmp/cs_$PID$K.clean.log 2>&1; clean_rc=$?
+PYTHONPATH="$WT" LD_LIBRARY_PATH=$ICU /venv/bin/python "$SRC/demo.py" > /tmp/cs_$PID$K.clean.log 2>&1; clean_rc=$?
 if ! git apply "$SRC/patch.diff" 2>/dev/null; then
   if ! patch -p1 -s --no-backup-if-mismatch < "$SRC/patch.diff"; then echo "SEED $PID/$K: PATCH DOES NOT APPLY to HEAD"; exit 1; fi
 fi
-LD_LIBRARY_PATH=$ICU /venv/bin/python "$SRC/demo.py" > /tmp/cs_$PID$K.mut.log 2>&1; mut_rc=$?
+PYTHONPATH="$WT" LD_LIBRARY_PATH=$ICU /venv/bin/python "$SRC/demo.py" > /tmp/cs_$PID$K.mut.log 2>&1; mut_rc=$?
 full="$(LD_LIBRARY_PATH=$ICU /venv/bin/python -m pytest -q -p no:cacheprovider -n 6 2>&1 | tail -1)"
 base="$(/venv/bin/python -m pytest -q -p no:cacheprovider --continue-on-collection-errors 2>&1 | tail -1)"
 echo "SEED $PID/$K: demo clean rc=$clean_rc, demo mutated rc=$mut_rc; full: $full; baseline: $base"
